@@ -14,6 +14,10 @@ fn safe_name(id: &str) -> String {
         .collect()
 }
 
+pub fn diff_files_pub(a: &BTreeMap<String, Vec<u8>>, b: &BTreeMap<String, Vec<u8>>) -> Option<String> {
+    diff_files(a, b)
+}
+
 fn diff_files(a: &BTreeMap<String, Vec<u8>>, b: &BTreeMap<String, Vec<u8>>) -> Option<String> {
     for (k, v) in a.iter() {
         match b.get(k) {
@@ -37,7 +41,7 @@ fn diff_files(a: &BTreeMap<String, Vec<u8>>, b: &BTreeMap<String, Vec<u8>>) -> O
 
 /// Give every live resource and dataset a stand-off file (absolute SimFs paths, so that the
 /// reference survives later restarts whatever the work directory is)
-fn assign_standoff_files(world: &mut World, json_resources: bool) -> Result<(), String> {
+pub fn assign_standoff_files(world: &mut World, json_resources: bool) -> Result<(), String> {
     let res: Vec<(usize, String, bool)> = world
         .store
         .resources()
